@@ -18,7 +18,7 @@ from pathlib import Path
 
 VERIF = Path("/verif")
 COQ = VERIF / "coq"
-REPO = Path("/repo")
+REPO = Path(os.environ.get("S2T_REPO", "/repo"))  # scratch worktrees only for development; registered checks use /repo
 EVID = VERIF / "evidence"
 REPLAY = VERIF / "replay"
 SCRATCH = COQ / "Scratch"
@@ -416,10 +416,14 @@ def _in_section(txt: str, lineno: int) -> bool:
 
 
 def load_known_findings():
-    p = VERIF / "known_findings.json"
-    if not p.exists():
-        return []
-    return json.loads(p.read_text()).get("findings", [])
+    """known_findings/Cxx.json: {"findings": [{"property","key","status": "open"|"fixed","what",...}]}.
+    Read-only at run time."""
+    out = []
+    d = VERIF / "known_findings"
+    if d.exists():
+        for p in sorted(d.glob("*.json")):
+            out += json.loads(p.read_text()).get("findings", [])
+    return out
 
 
 def _jsonable(x):
